@@ -33,6 +33,9 @@ OTHER_INT = ["int64", "uint8", "int16", "uint64", "int8"]
 NON_INT = ["string", "float64", "bool"]
 
 
+OTHERPKG = {"Client": ("net/http", "http.Client"), "Token": ("go/token", "token.Token"), "User": ("os/user", "user.User")}
+
+
 def lower_first(s):
     return s[:1].lower() + s[1:]
 
@@ -130,7 +133,8 @@ def render_decl(d, kinds={}):
         tp = "[" + ", ".join("%s any" % p for p in d["tparams"]) + "]" if d["tparams"] else ""
         params = ", ".join("p%d %s" % (i, p) for i, p in enumerate(d["tparams"]))
         body = "".join("\ttype %s\n\tvar _ %s\n" % (render_tspec(t).replace("\n", "\n\t"), t["name"]) for t in d.get("locals", []))
-        return "func %s%s(%s) {\n%s}\n" % (d["name"], tp, params, body)
+        recv = "(r %s) " % d["recv"] if d.get("recv") else ""
+        return "func %s%s%s(%s) {\n%s}\n" % (recv, d["name"], tp, params, body)
     return "var %s = 1\n" % d["name"]
 
 
@@ -138,8 +142,12 @@ def render_file(pkgname, f, kinds={}):
     needs_rest = any(t.get("needs_rest") for d in f["decls"] if d["k"] in ("types", "func")
                      for t in (d["specs"] if d["k"] == "types" else d.get("locals", [])))
     out = ["package %s\n" % pkgname]
+    imps = sorted(set(i for d in f["decls"] if d["k"] == "types" for t in d["specs"] for i in t.get("imports", [])))
     if needs_rest:
-        out.append('import (\n\t"net/http"\n\n\t"github.com/lopolopen/shoot"\n)\n')
+        imps = sorted(set(imps + ["net/http"]))
+        out.append('import (\n' + "".join('\t"%s"\n' % i for i in imps) + '\n\t"github.com/lopolopen/shoot"\n)\n')
+    elif imps:
+        out.append('import (\n' + "".join('\t"%s"\n' % i for i in imps) + ')\n')
     for c in f.get("comments", []):
         out.append(c)
     if f.get("comments"):
@@ -475,6 +483,42 @@ class CliGen:
             t["nodest"] = True
             r.choice(others)["decls"].append({"k": "types", "specs": [t]})
             pkg["shadowed"] = target
+        elif shape in ("embedded-earlier", "field-earlier", "method-earlier", "ifaceembed-earlier", "local-earlier", "otherpkg-earlier"):
+            # an identifier called like the selected type is DEFINED in a file that sorts before the declaring file:
+            # an embedded field, a field, a method, an embedded interface element, a function-local type. The package-level
+            # type alone decides where the output goes.
+            early = {"name": "0early.go", "comments": [], "decls": []}
+            tdecl = None
+            for f in files:
+                for d in f["decls"]:
+                    if d["k"] == "types":
+                        for t in d["specs"]:
+                            if t["name"] == target:
+                                tdecl = t
+            host = "Host" + target
+            if shape == "ifaceembed-earlier" and tdecl is not None and tdecl["shape"] == "iface":
+                t = t_iface(host, ["named:" + target], "iface-embeds-target")
+                early["decls"].append({"k": "types", "specs": [t]})
+            elif shape == "method-earlier":
+                t = t_struct(host, nodest=True, flavour="struct-with-method-named-like-type")
+                early["decls"].append({"k": "types", "specs": [t]})
+                early["decls"].append({"k": "func", "name": target, "recv": host, "tparams": [], "locals": []})
+            elif shape == "local-earlier":
+                loc = t_struct(target) if pkg["cmd"] != "enum" else t_basic(target, "int")
+                early["decls"].append({"k": "func", "name": "withLocal" + target, "tparams": [], "locals": [loc]})
+            elif shape == "otherpkg-earlier" and target in OTHERPKG:
+                # an embedded field otherpkg.T: its field name is T
+                imp, qual = OTHERPKG[target]
+                t = {"name": host, "shape": "struct", "go": "struct {\n\t%s\n\tn int\n}" % qual, "flavour": shape, "nodest": True, "imports": [imp]}
+                early["decls"].append({"k": "types", "specs": [t]})
+            else:
+                body = "\t%s\n\tn int\n" % target if shape != "field-earlier" else "\t%s %s\n\tn int\n" % (target, target)
+                if tdecl is not None and tdecl.get("tparams"):
+                    body = body.replace(target + "\n", target + "[int]\n", 1)
+                t = {"name": host, "shape": "struct", "go": "struct {\n" + body + "}", "flavour": shape, "nodest": True}
+                early["decls"].append({"k": "types", "specs": [t]})
+            files.insert(0, early)
+            pkg["earlier"] = target
         elif shape == "local-type":
             f = r.choice(files)
             loc = t_struct("Local" + target) if pkg["cmd"] != "enum" else t_basic("Local" + target, "int")
@@ -761,10 +805,16 @@ def damage_cases(rng, quick=True):
     b = base_new()
     sub(b, "a.go", "\tname string\n", "\t//shoot: get\n\tName string\n")
     add(b, ["new", "-getset", "-type=User"], "exportedGetFlag")
-    add(base_new(), ["new", "-opt", "-type=Pair"], "formatFail", tags=["-opt on a generic struct"])
+    add(base_new(), ["new", "-opt", "-type=Pair"], "none", outs=["x"], tags=["-opt on a generic struct"])     # repaired in /repo a24acb7
+    b = base_new()
+    sub(b, "a.go", "def=7", "def=)(")       # age is not a parameter (id carries `new`): the default lands in the literal
+    add(b, ["new", "-getset", "-json", "-type=User"], "formatFail", tags=["default expression is not Go"])
+    for cmd in CMDS:                        # a newline in -ver splits the header comment
+        B = BASES[cmd]
+        add(B(), [cmd] + B()["flags"] + ["-ver=v1\nv2", "-type=" + B()["good"][0]], "formatFail", tags=["newline in -ver"])
     b = base_new()
     sub(b, "b.go", "type Pair[", "type BaseSetter[T any] interface {\n\tSetCode(T)\n}\n\ntype Pair[")
-    add(b, ["new", "-getset", "-type=User"], "setterIface")
+    add(b, ["new", "-getset", "-type=User"], "none", outs=["x"], tags=["formerly a panic: setterIface"])
     b = base_new()
     sub(b, "b.go", "type Pair[", "type BaseGetter[T any] interface {\n\tCode() T\n}\n\ntype Pair[")
     add(b, ["new", "-getset", "-type=User"], "none", outs=["x"], tags=["generic getter interface"])
@@ -780,19 +830,19 @@ def damage_cases(rng, quick=True):
     add(base_map(), ["map", "-path=../dest", "-type=NoDest"], "typeMissing", tags=["dest type missing"])
     b = base_map()
     sub(b, "a.go", "func (o *Order) writeDest(d *dest.Order)", "func (o Order) writeDest(d *dest.Order)")
-    add(b, ["map", "-path=../dest", "-type=Order"], "valueRecv")
+    add(b, ["map", "-path=../dest", "-type=Order"], "none", outs=["x"], tags=["formerly a panic: valueRecv"])
     b = base_map()
     sub(b, "b.go", "type Name string", "type Name string\n\nfunc (n Name) toDest() string { return string(n) }")
-    add(b, ["map", "-path=../dest", "-type=User"], "valueRecv", tags=["value receiver on another type"])
+    add(b, ["map", "-path=../dest", "-type=User"], "none", outs=["x"], tags=["formerly a panic: valueRecv", "value receiver on another type"])
     b = base_map()
     sub(b, "a.go", "func (o *Order) writeDest(d *dest.Order)", "func (o *Order) writeDest(*dest.Order)")
-    add(b, ["map", "-path=../dest", "-type=Order"], "manualUnnamed", tags=["unnamed parameter"])
+    add(b, ["map", "-path=../dest", "-type=Order"], "none", outs=["x"], tags=["formerly a panic: manualUnnamed", "unnamed parameter"])
     b = base_map()
     sub(b, "a.go", "func (o *Order) writeDest(d *dest.Order) {\n\td.Note = o.note\n}", "func (*Order) readDest(d dest.Order) {\n}")
-    add(b, ["map", "-path=../dest", "-type=Order"], "manualUnnamed", tags=["unnamed receiver"])
+    add(b, ["map", "-path=../dest", "-type=Order"], "none", outs=["x"], tags=["formerly a panic: manualUnnamed", "unnamed receiver"])
     b = base_map()
     sub(b, "a.go", "func (o *Order) writeDest(d *dest.Order) {\n\td.Note = o.note\n}", "func (o *Order) writeDest(d *dest.Order)")
-    add(b, ["map", "-path=../dest", "-type=Order"], "manualNoBody")
+    add(b, ["map", "-path=../dest", "-type=Order"], "none", outs=["x"], tags=["formerly a panic: manualNoBody"])
     b = base_map()
     sub(b, "a.go", "func (o *Order) writeDest(d *dest.Order)", "func (o *Order) writeDest(d dest.Order)")
     add(b, ["map", "-path=../dest", "-type=Order"], "manualBadParam")
@@ -811,10 +861,14 @@ def damage_cases(rng, quick=True):
         add(b, ["rest", "-type=Client"], "restResults", tags=[tag])
     b = base_rest()
     sub(b, "b.go", "type Plain interface {\n", "type Plain interface {\n\terror\n")
-    add(b, ["rest", "-type=*"], "univEmbed")
+    add(b, ["rest", "-type=*"], "none", outs=["x"], tags=["formerly a panic: univEmbed"])
     b = base_rest()
     sub(b, "a.go", "\tshoot.RestClient[Client]\n", "\terror\n\tshoot.RestClient[Client]\n")
-    add(b, ["rest", "-type=Client"], "univEmbed", tags=["named interface, error first"])
+    add(b, ["rest", "-type=Client"], "none", outs=["x"], tags=["formerly a panic: univEmbed", "named interface, error first"])
+    b = base_rest()
+    sub(b, "a.go", '//shoot: Delete("/users/{userID:id}")', '//shoot: Delete("/users/{id}")\n\t//shoot: alias={userID:id},{other:id}')
+    sub(b, "a.go", "DelUser(ctx context.Context, userID int)", "DelUser(ctx context.Context, userID int, other int)")
+    add(b, ["rest", "-type=Client"], "restAliasDup")
     b = base_rest()
     sub(b, "a.go", "\tshoot.RestClient[Client]\n", "\tshoot.RestClient[Client]\n\terror\n")
     add(b, ["rest", "-type=Client"], "none", outs=["x"], tags=["error after RestClient"])
@@ -920,11 +974,17 @@ def damage_cases(rng, quick=True):
             ("a.go", "func (o *Order) writeDest(d *dest.Order) {\n\td.Note = o.note\n}",
              "func (*Order) readDest(d dest.Order) {\n}", "unnamed receiver (read)"),
             ("a.go", "func (o *Order) writeDest(d *dest.Order)", "func (o *Order) writeDest(d *dest.Order, n int)", "two parameters"),
-            ("b.go", "\tNick *string\n", "\tNick **string\n", "pointer to pointer")]:
+            ("b.go", "\tNick *string\n", "\tNick **string\n", "pointer to pointer"),
+            ("a.go", "\tnote  string\n", "\tnote  string\n\tErr   error\n", "field of a universe type")]:
         b = base_map()
         sub(b, fname, old, new)
         un(b, ["map", "-path=../dest", "-type=Order,User"], tag)
         un(b, ["map", "-path=../dest", "-i", "-alias=d", "-type=*"], tag + " (-type=*)")
+    # name-matched fields of a universe type on both sides (used to panic in makeSubMap; repaired in /repo 5adcd29)
+    b = base_map()
+    sub(b, "a.go", "\tnote  string\n", "\tnote  string\n\tErr   error\n\tErrs  []error\n")
+    b["files"]["dest/d.go"] = b["files"]["dest/d.go"].replace("\tNote string\n", "\tNote string\n\tErr  error\n\tErrs []error\n")
+    un(b, ["map", "-path=../dest", "-type=Order"], "name-matched fields of a universe type")
     # odd values of the free-text flags: shoot has no rule for them, only the property is evaluated
     for v in ["", "1x", "a-b", "_", "dest", "func", "a b", "d.e"]:
         un(base_map(), ["map", "-path=../dest", "-alias=" + v, "-type=Order,User"], "flag-value -alias")
